@@ -502,6 +502,9 @@ class Emitter:
                 d = self.decl(t, c["name"])
                 if c.get("isBitfield"):
                     w = find_value(c)
+                    if d.startswith("int ") and (tkey(self.strip_cv(t)) in self.ast.enumtypes):
+                        # bit-field of an enumeration without negative enumerators: unsigned, as g++/clang treat it
+                        d = "unsigned " + d
                     d += " : %s" % w
                 lines.append("    %s;" % d)
                 nfields += 1
